@@ -34,7 +34,7 @@ CLAIMED = {
              "validation: every generated library is built twice (direct C++ calls; calls through the generated C API only) under "
              "AddressSanitizer with the same argument values; callee-side trace and caller-side results must be identical. The check "
              "requires a std::string parameter to be built in the wrapper (no raw C string) and the object pointer to be const exactly "
-             "when the member is const.",
+             "when the member is const, and a std::string to be built with the trimmed length exactly when the prototype carries it.",
         note="Trusted: Coq kernel, the flow extractor tools/cflow.py, the library/driver generator tools/eqgen.py, g++/ASan. "
              "Result conversions, overload/default/template reachability (C08) and ownership (C06) are not in this model; "
              "wrappers with vector / struct / function-pointer parameters are outside the covered grammar (counted).",
@@ -146,7 +146,8 @@ CLAIMED = {
              "needed and the trimmed length where the text length is needed. Tie: helper C text pulled from whelpers at run time, "
              "compiled with gcc and g++ under ASan/UBSan, exhaustive small-scope comparison with the extracted model (text and the "
              "allocator-reported room of the block handed to C; theorem: nsrc+1 bytes). The table also lists every store by index "
-             "into the caller's buffer (only index 0 admitted).",
+             "into the caller's buffer (only index 0 admitted) and every std::string built from the argument in the resolved statements "
+             "(bufferify statements must use the trimmed length).",
         note="Trusted: Coq kernel, extraction, harness, gcc/g++/libc. Modelled: the helpers and the call-site argument classes; "
              "the Fortran-side trim()//C_NULL_CHAR and std::string internals are taken at their standard meaning.",
         technique="Coq proof over hand model + regenerated table theorem + compiled-helper correspondence",
